@@ -35,6 +35,9 @@ def project(rng):
     files["vendor/lib.py"] = "def lib(a):\n    print(a)\n    return a * 9292\n"
     # repository-level ignore patterns are relative to the project root, wherever the command is run from
     files[".thailintignore"] = "pkg/skipped.py\nvendor/\n"
+    # enough files for --parallel to really use its worker pool (it falls back to the sequential path below 2 x workers files)
+    for i in range(14):
+        files["pkg/fill/f%02d.py" % i] = "def fill_%d(a):\n    print(a)\n    return a * %d\n" % (i, 10007 + i)
     return files
 
 
@@ -80,8 +83,9 @@ def exec_case(case):
     runner.write_tree(root, case["files"])
     srcs = sorted(f for f in case["files"] if not f.startswith("."))
     out = {}
-    for sp in case["spellings"]:
+    for sp_full in case["spellings"]:
         pre = []
+        sp, _, mode = sp_full.partition("+")
         if sp == "dot":
             cwd, targets = root, ["."]
         elif sp == "dot-slash":
@@ -110,7 +114,7 @@ def exec_case(case):
             raise ValueError(sp)
         res = {}
         for cmd in case["cmds"]:
-            argv = pre + [cmd, "--format", "json"] + targets
+            argv = pre + [cmd, "--format", "json"] + (["--parallel"] if mode == "parallel" else []) + targets
             r = runner.cli(argv, cwd)
             vs = r.violations()
             if vs is None or r.exit not in (0, 1):
@@ -118,7 +122,7 @@ def exec_case(case):
             else:
                 res[cmd] = {"v": sorted([v["rule_id"], norm_path(v["file_path"], root, cwd), v["line"], v["column"],
                                          norm_msg(v["message"], root, cwd)] for v in vs)}
-        out[sp] = res
+        out[sp_full] = res
     return out
 
 
@@ -127,6 +131,9 @@ def mechanism(cmd, parent, sp, only_ref, only_var, files_in_ref):
     marker = any(m in parent.lower() for m in ("test", "spec", "example", "bench", "fixture"))
     pclass = "test-marker-parent" if marker else "excluded-dir-parent" if parent in EXCLUDED_PARENTS else "plain-parent"
     # the marker is only visible to the tool when the spelled target runs through the parent directory
+    sp, _, mode = sp.partition("+")
+    if mode and pclass != "test-marker-parent":
+        cmd = cmd + ":" + mode  # (a test-marker parent is seen by the same per-file heuristics in the workers: same mechanism, same key)
     if pclass == "test-marker-parent" and sp not in ("abs", "files-abs", "abs-elsewhere", "project-root-opt", "via-parent-dotdot", "files-via-parent-dotdot"):
         pclass = "test-marker-parent-relative-spelling"
     lost_files = {r[1] for r in only_ref}
@@ -152,25 +159,31 @@ def run(ctx):
     cases = []
     for p in parents:
         sps = SPELLINGS if (not ctx.quick or p in ("plain", "build", "tests")) else ["dot", "abs", "rel-from-parent", "files-abs", "via-parent-dotdot"]
+        # the same spellings under --parallel (worker processes resolve paths on their own), compared with a --parallel reference
+        sps = list(sps) + [x + "+parallel" for x in (("abs", "via-parent-dotdot", "rel-from-parent", "files-abs") if ctx.quick else sps)]
         for sp_chunk in [sps[i:i + 3] for i in range(0, len(sps), 3)]:
             cases.append({"parent": p, "files": files, "spellings": sp_chunk, "cmds": cmds})
-    ref_case = {"parent": "ref", "files": files, "spellings": ["dot"], "cmds": cmds}
+    ref_case = {"parent": "ref", "files": files, "spellings": ["dot", "dot+parallel"], "cmds": cmds}
     outs = runner.pmap(exec_case, [ref_case] + cases, timeout=900)
     if not outs[0].get("ok"):
         ctx.inconclusive_if(True, "reference run failed: %s" % str(outs[0])[:300])
         return
-    ref = outs[0]["value"]["dot"]
-    ref_counts = {c: (Counter(map(tuple, ref[c]["v"])) if "v" in ref[c] else None) for c in cmds}
-    for c in cmds:
-        if ref_counts[c] is None:
-            ctx.inconclusive_if(True, "reference run of %s failed: %s" % (c, ref[c]))
-            return
-    ctx.obs["reference_violations_per_command"] = {c: sum(ref_counts[c].values()) for c in cmds}
+    refs = {}
+    for mode, name in (("", "dot"), ("parallel", "dot+parallel")):
+        ref = outs[0]["value"][name]
+        refs[mode] = {c: (Counter(map(tuple, ref[c]["v"])) if "v" in ref[c] else None) for c in cmds}
+        for c in cmds:
+            if refs[mode][c] is None:
+                ctx.inconclusive_if(True, "reference run (%s) of %s failed: %s" % (name, c, ref[c]))
+                return
+    ctx.obs["parallel_reference_violations_per_command"] = {c: sum(refs["parallel"][c].values()) for c in cmds}
+    ctx.obs["reference_violations_per_command"] = {c: sum(refs[""][c].values()) for c in cmds}
     for case, o in zip(cases, outs[1:]):
         if not o.get("ok"):
             ctx.inconclusive_if(True, "case failed in harness: %s" % str(o)[:300])
             continue
         for sp, res in o["value"].items():
+            ref_counts = refs[sp.partition("+")[2]]
             for cmd in cmds:
                 ctx.evaluations += 1
                 r = res[cmd]
